@@ -12,7 +12,7 @@ from vlib.sess import Bench
 
 PROPERTY = "C06"
 LEVEL = "exploration"
-SLOTS = ["app", "appg", "hb", "rr", "declined", "hole-del", "hole-skip", "reject"]
+SLOTS = ["app", "appg", "app43n", "hb", "rr", "declined", "hole-del", "hole-skip", "reject"]
 
 
 def RULE(tier):
@@ -76,8 +76,10 @@ class Driver:
         ep, b = self.ep, self.b
         self.uid += 1
         j = ep._journaler
-        if kind in ("app", "appg", "declined"):
+        if kind in ("app", "appg", "declined", "app43n"):
             m = FIXMessage(FMsg.NEWORDERSINGLE, {11: f"c{self.uid}", 55: "SYM", 54: 1, 38: self.uid, 58: ("NOREPLAY please" if kind == "declined" else f"text {self.uid} a=b|c")})
+            if kind == "app43n":
+                m.set(43, "N")  # an application message sent with an explicit PossDupFlag=N is still replayable
             if kind == "appg":
                 m.set_group(453, [{448: "p1", 447: "D", 452: 1}, {448: "p2", 447: "D", 452: 3}])
             r = b.w.call(ep.send_msg(m))
